@@ -70,6 +70,39 @@ func frontCorpus(r *core.Run, avoid map[string]bool) []feCase {
 		{Kind: "message", Name: "Überschrift", Fields: []schema.Field{{Name: "größe", Type: schema.Simple("Größe"), Index: 1}, {Name: "名前", Type: schema.ArrayOf(schema.Simple("string")), Index: 2}}},
 		{Kind: "union", Name: "Vereinigung", Branches: []schema.Branch{{Index: 1, Def: &schema.Def{Kind: "struct", Name: "Fläche", Fields: []schema.Field{{Name: "q", Type: schema.Simple("float64")}}}}}},
 	}}})
+	// schemas several read buffers long (a tokenizer reads through a 4096-byte buffer): 160
+	// definitions, shifted byte by byte by the length of a leading comment so that every buffer
+	// boundary falls into every kind of token at least once
+	nshift := 24
+	if r.Thorough() {
+		nshift = 96
+	}
+	for k := 0; k < nshift; k++ {
+		big := &schema.Schema{}
+		for i := 0; i < 160; i++ {
+			var d *schema.Def
+			switch i % 4 {
+			case 0:
+				d = &schema.Def{Kind: "struct", Name: fmt.Sprintf("OriginatingStation%03d", i), Fields: []schema.Field{
+					{Name: "identifierOfStation", Type: schema.Simple("guid")}, {Name: "readings", Type: schema.ArrayOf(schema.Simple("float64"))},
+					{Name: "labelsByName", Type: schema.MapOf("string", schema.Simple("int32"))}}}
+			case 1:
+				d = &schema.Def{Kind: "message", Name: fmt.Sprintf("MeasurementBatch%03d", i), Fields: []schema.Field{
+					{Name: "station", Type: schema.Simple(fmt.Sprintf("OriginatingStation%03d", i-1)), Index: 1}, {Name: "collectedAt", Type: schema.Simple("date"), Index: 2},
+					{Name: "annotation", Type: schema.Simple("string"), Index: 7, Deprecated: true, DepMsg: "no longer collected"}}}
+			case 2:
+				d = &schema.Def{Kind: "enum", Name: fmt.Sprintf("QualityLevel%03d", i), Base: "uint16", Options: []schema.Option{
+					{Name: "Unverified", Lit: "1"}, {Name: "Plausible", Lit: "0x20"}, {Name: "Confirmed", Lit: "300"}}}
+			default:
+				d = &schema.Def{Kind: "const", Name: fmt.Sprintf("thresholdValue%03d", i), CType: "int32", Lit: fmt.Sprint(1000 + i)}
+			}
+			if i == 0 {
+				d.Docs = []schema.Doc{{Text: " " + strings.Repeat("s", k)}}
+			}
+			big.Defs = append(big.Defs, d)
+		}
+		named = append(named, schema.Named{Name: fmt.Sprintf("big/shift-%02d", k), S: big})
+	}
 	nrand := 500
 	if r.Thorough() {
 		nrand = 5000
